@@ -564,7 +564,7 @@ package shell_operator
 //@   modifies nothing
 //@ package github.com/flant/shell-operator/pkg/shell-operator
 //@ func (*ShellOperator).taskHandleEnableKubernetesBindings
-//@   prop C03, C06
+//@   prop C03, C06, C04
 //@   inlines (*HookController).HandleEnableKubernetesBindings, (*ShellOperator).taskHandleEnableKubernetesBindings$1
 //@   requires op != nil && op.HookManager != nil && t != nil
 //@   ensures [sync-tasks-name-main] forall(i, 0, len(result.HeadTasks), dyntype(result.HeadTasks[i], *task.BaseTask) && result.HeadTasks[i].(*task.BaseTask) != nil && result.HeadTasks[i].(*task.BaseTask).QueueName == "main")
@@ -572,6 +572,10 @@ package shell_operator
 //@   ensures [after-tasks-name-main] forall(i, 0, len(result.AfterTasks), dyntype(result.AfterTasks[i], *task.BaseTask) && result.AfterTasks[i].(*task.BaseTask) != nil && result.AfterTasks[i].(*task.BaseTask).QueueName == "main")
 //@   loop (*HookController).HandleEnableKubernetesBindings#1
 //@     invariant forall(i, 0, len(hookRunTasks), dyntype(hookRunTasks[i], *task.BaseTask) && hookRunTasks[i].(*task.BaseTask) != nil && hookRunTasks[i].(*task.BaseTask).QueueName == "main")
+//@     invariant [settings-of-the-binding @C04] 0 <= iter() && iter() <= len(execInfos) && len(hookRunTasks) == iter() && forall(i, 0, iter(), dyntype(hookRunTasks[i], *task.BaseTask) && hookRunTasks[i].(*task.BaseTask) != nil && allocated(hookRunTasks[i].(*task.BaseTask)) && dyntype(hookRunTasks[i].(*task.BaseTask).Metadata, task_metadata.HookMetadata)
+//@        && hookRunTasks[i].(*task.BaseTask).Metadata.(task_metadata.HookMetadata).AllowFailure == execInfos[i].AllowFailure
+//@        && hookRunTasks[i].(*task.BaseTask).Metadata.(task_metadata.HookMetadata).Binding == execInfos[i].Binding
+//@        && hookRunTasks[i].(*task.BaseTask).Metadata.(task_metadata.HookMetadata).Group == execInfos[i].Group)
 //@   loop 1
 //@     invariant forall(i, 0, len(hookRunTasks), dyntype(hookRunTasks[i], *task.BaseTask) && hookRunTasks[i].(*task.BaseTask) != nil && hookRunTasks[i].(*task.BaseTask).QueueName == "main")
 
